@@ -317,8 +317,4 @@ theorem rotate90F_flag (f : Fld) (a1 a2 : String) (k : Int) (ref : Option (List 
       constructor
       · cases b' <;> rfl
       · cases b <;> exact ha.symm
-/-- the invariant bundle carried through field histories: shape invariant, `SubInv` of the mesh,
-non-periodic bc -/
-def FInv (f : Fld) : Prop := FldInv f ∧ SubInv f.mesh ∧ PlainBc f.mesh.bc
-
 end DFV.T
